@@ -41,7 +41,7 @@ type mirrorFamily struct {
 
 func mirrorFamilies() []mirrorFamily {
 	return []mirrorFamily{
-		{"basic", 16}, {"ranges", 14}, {"trunc", 12}, {"interleave", 40}, {"tickets", 12},
+		{"basic", 16}, {"ranges", 14}, {"trunc", 12}, {"interleave", 40}, {"tickets", 12}, {"twologs", 6},
 		{"wrong", 12}, {"faults", 2 * len(mirrorFaultList())}, {"restart", 24}, {"misc", 6},
 	}
 }
@@ -95,6 +95,9 @@ func mirrorRunCase(c mirrorCase, tr *eng.Trace, st *eng.Stats) ([]eng.OracleFail
 	case "tickets":
 		w = mirrorNewWorld(c, r, tr, st, []mirrorLogDef{{size(1100), true}, {size(600), true}})
 		w.famTickets()
+	case "twologs":
+		w = mirrorNewWorld(c, r, tr, st, []mirrorLogDef{{size(1000), true}, {size(1000), true}})
+		w.famTwoLogs()
 	case "wrong":
 		w = mirrorNewWorld(c, r, tr, st, []mirrorLogDef{{size(900), true}})
 		w.famWrong()
